@@ -177,9 +177,14 @@ class FileResolver:
                 glob_part = str(Path(*parts[i:]))
                 break
 
+        # A glob only selects among the files that a traversal of its root directory finds,
+        # so that include, exclusion, ignore, size and symlink rules are the same for both.
+        allowed: set[Path] | None = None
         for path in root.glob(glob_part):
-            if path.is_file() and self._include_spec.match_file(path.name):
-                if not self._exceeds_max_size(path):
+            if path.is_file() and not path.is_symlink():
+                if allowed is None:
+                    allowed = {p.resolve() for p in self._walk_directory(root)}
+                if path.resolve() in allowed:
                     yield path
 
     def _exceeds_max_size(self, path: Path) -> bool:
